@@ -1,5 +1,6 @@
 (* C15 — the automated motif equation equals the exact bond-percolation expectation.
-   Property theorems only; each is closed by [exact] of a lemma of Proofs/AutoEqP.v / AutoEqR.v.
+   Property theorems only; each is closed by [exact] of a lemma of Proofs/AutoEqP.v / AutoEqR.v (reflection) /
+   AutoEqW.v AutoEqC.v AutoEqG.v AutoEqE.v (the general identity, growth phase).
 
    Objects (Model/AutoEq.v):
      auto_q g r phi u        the model of AutomatedEquation.automated_equation on a fresh evaluator, in Q
@@ -8,13 +9,14 @@
      auto_step / run_history the evaluator object with its two structure-only caches
      c15_checkb              the verified checker the harness runs on the implementation's polynomial. *)
 From Coq Require Import List ZArith QArith Bool Arith Ring_polynom Permutation.
-From GV Require Import Lib.Tree Lib.PolyRefl15 Lib.Graph15 Model.AutoEq Proofs.AutoEqP Proofs.AutoEqR.
+From GV Require Import Lib.Tree Lib.PolyRefl15 Lib.Graph15 Model.AutoEq Proofs.AutoEqP Proofs.AutoEqR
+                       Proofs.AutoEqW Proofs.AutoEqC Proofs.AutoEqG Proofs.AutoEqE.
 Import ListNotations.
 Local Open Scope nat_scope.
 
-(* The full statement (all motif sizes).  NOT proved beyond 5 vertices: see C15_identity_upto_5.
-   For larger motifs the identity is checked on every run by c15_check on the implementation's
-   own polynomial (random connected 6-7 vertex motifs), which is a test, not a theorem. *)
+(* The full statement (all motif sizes, arbitrary vertex labels).  PROVED: C15_identity_general /
+   C15_full_holds below (general regrouping proof, Proofs/AutoEqW.v AutoEqC.v AutoEqG.v).  The bounded
+   reflection result C15_identity_upto_5 is kept as an independent check. *)
 Definition C15_full : Prop :=
   forall (g : graph) (r : nat), wf_graph g = true -> In r (g_nodes g) ->
   forall (phi : Q) (u : nat -> Q), (auto_q g r phi u == expectation g r phi u)%Q.
@@ -35,6 +37,54 @@ Example C15_identity_nonvacuous :
   In [(0,1);(0,2);(1,2);(1,3);(2,3)] (sublists (all_pairs 4)) /\
   length (pe_monos (auto_expr ([0;1;2;3], [(0,1);(0,2);(1,2);(1,3);(2,3)]) 1)) = 32.
 Proof. vm_compute. repeat split. tauto. Qed.
+
+(* GENERAL (every motif size, arbitrary vertex labels): THE REGROUPING IDENTITY.  For every well-formed
+   motif g (distinct nodes, simple edges between listed nodes; connected or not), every root r of g, all
+   rational phi and heterogeneous per-vertex values u, the value of the automated equation
+     sum over the enumerated connected vertex sets C containing r of
+       (1-phi)^(#interface edges of C) * prod_{v in C, v <> r} u v *
+       sum over the edge sets T of the reduced graph of C whose removal keeps it connected of
+         phi^(|E(C)|-|T|) (1-phi)^|T|
+   equals the exact bond-percolation expectation
+     sum over ALL edge subsets S of phi^|S| (1-phi)^(|E|-|S|) prod_{v in comp_S(r), v <> r} u v. *)
+Theorem C15_identity_general :
+  forall (g : graph) (r : nat), wf_graph g = true -> In r (g_nodes g) ->
+  forall (phi : Q) (u : nat -> Q), (auto_q g r phi u == expectation g r phi u)%Q.
+Proof. exact identity_general. Qed.
+Print Assumptions C15_identity_general.
+
+Theorem C15_full_holds : C15_full.
+Proof. exact identity_general. Qed.
+Print Assumptions C15_full_holds.
+
+(* ... and for WHATEVER order the candidate sets are iterated in by the backtracking enumeration
+   (Python set iteration order): [auto_q_ord ord] is the automated equation under the schedule [ord]
+   (any function returning a permutation of its argument), [auto_q] is the instance [ord] = identity. *)
+Theorem C15_identity_general_any_order :
+  forall (ord : list nat -> list nat) (g : graph) (r : nat),
+    (forall l, Permutation (ord l) l) -> wf_graph g = true -> In r (g_nodes g) ->
+    forall (phi : Q) (u : nat -> Q), (auto_q_ord ord g r phi u == expectation g r phi u)%Q.
+Proof. exact identity_general_any_order. Qed.
+Print Assumptions C15_identity_general_any_order.
+
+(* non-vacuity: a motif beyond the reflection bound (6 vertices with non-contiguous labels in shuffled
+   order, 7 edges, two cycles sharing the root's neighbour 3), root 7: the hypotheses hold, there are 22
+   connected vertex sets, the common value is a non-trivial rational; the reversed iteration order visits
+   the sets in another order and gives the same value *)
+Example C15_identity_general_nonvacuous :
+  let g := ([10;3;7;22;5;41], [(10,3);(3,7);(7,10);(7,22);(22,5);(5,41);(3,41)]) in
+  let u := fun v : nat => (Z.of_nat v + 1 # Pos.of_nat (v + 3))%Q in
+  wf_graph g = true /\ In 7 (g_nodes g) /\ (forall l : list nat, Permutation (rev l) l)
+  /\ length (enum g 7) = 22
+  /\ Qred (auto_q g 7 (1#3) u) = (2641687 # 3474900)%Q
+  /\ Qred (expectation g 7 (1#3) u) = (2641687 # 3474900)%Q
+  /\ Qred (auto_q_ord (@rev nat) g 7 (1#3) u) = (2641687 # 3474900)%Q
+  /\ nth 1 (enum g 7) [] = [7; 3] /\ nth 1 (enum_ord (@rev nat) g 7) [] = [7; 22].
+Proof.
+  cbv zeta. split; [reflexivity|]. split; [cbn; tauto|].
+  split; [intros l; apply Permutation_sym, Permutation_rev|].
+  vm_compute. repeat split; reflexivity.
+Qed.
 
 (* GENERAL (any graph size, any schedule): whatever order [ord] the candidate sets are iterated in (any
    function returning a permutation of its argument), the backtracking enumeration returns only vertex
@@ -96,6 +146,25 @@ Theorem C15_enum_rev_ok_upto_5 :
 Proof. exact enum_rev_ok_upto_5. Qed.
 Print Assumptions C15_enum_rev_ok_upto_5.
 
+(* GENERAL (all sizes, all schedules): the property the enumeration checker decides (every vertex subset
+   s of the node list, in canonical order, is reported exactly once if it contains the root and is connected
+   in the networkx sense [conn_set], and not at all otherwise; every reported list is duplicate-free and
+   inside the node list) holds for the backtracking enumeration of every well-formed graph.  This also
+   identifies the inductive notion [grown] of C15_enum_general with boolean connectivity. *)
+Theorem C15_enum_ok_general :
+  forall (ord : list nat -> list nat) (g : graph) (r : nat),
+    (forall l, Permutation (ord l) l) -> wf_graph g = true -> In r (g_nodes g) ->
+    enum_ok g r (enum_ord ord g r).
+Proof. exact enum_ok_general. Qed.
+Print Assumptions C15_enum_ok_general.
+
+Example C15_enum_ok_general_nonvacuous :
+  let g := ([10;3;7;22;5;41], [(10,3);(3,7);(7,10);(7,22);(22,5);(5,41);(3,41)]) in
+  wf_graph g = true /\ enum_okb g 7 (enum_ord (@rev nat) g 7) = true
+  /\ enum_okb g 7 (tl (enum_ord (@rev nat) g 7)) = false
+  /\ conn_set g [10;3;41] = true /\ conn_set g [10;41] = false.
+Proof. vm_compute. repeat split; reflexivity. Qed.
+
 (* GENERAL: on ONE evaluator, for every history of calls (any motifs of any size, roots, phi, u, in
    any interleaving) in which equal names denote equal motifs, every returned value (or raised
    error = None) is the one a fresh evaluator returns. *)
@@ -146,6 +215,28 @@ Proof.
     try contradiction; subst; try reflexivity; discriminate Hn.
 Qed.
 
+(* GENERAL, END TO END: on ONE evaluator object, for every history of calls on well-formed motifs (any
+   sizes, roots, phi, u, any interleaving) in which equal names denote equal motifs, EVERY call returns the
+   exact expectation of its own arguments (up to ==), or raises when its root is not a vertex of its motif:
+   C15_history + C15_fresh_value + C15_identity_general. *)
+Theorem C15_history_exact :
+  forall calls : list (call (T:=Q)),
+    distinctly_named calls -> (forall c, In c calls -> wf_graph (c_graph c) = true) ->
+    Forall2 (fun (o : option Q) (c : call (T:=Q)) =>
+               if memb (c_root c) (g_nodes (c_graph c))
+               then exists v, o = Some v /\ (v == expectation (c_graph c) (c_root c) (c_phi c) (c_u c))%Q
+               else o = None)
+            (run_history alg_q caches_empty calls) calls.
+Proof. exact history_exact. Qed.
+Print Assumptions C15_history_exact.
+
+(* non-vacuity: the history of C15_history_nonvacuous consists of well-formed motifs *)
+Example C15_history_exact_nonvacuous :
+  let tri := ([0;1;2], [(0,1);(1,2);(0,2)]) in
+  let path := ([0;1;2], [(0,1);(1,2)]) in
+  wf_graph tri = true /\ wf_graph path = true /\ memb 5 (g_nodes path) = false.
+Proof. vm_compute. repeat split; reflexivity. Qed.
+
 (* GENERAL: the expectation of a product of values in [0,1] lies in [0,1] (used by C17) *)
 Theorem C15_exact_in_unit :
   forall g r (phi : Q) (u : nat -> Q),
@@ -173,6 +264,25 @@ Theorem C15_check_sound :
                  == expectation g r (peval env ephi) (fun v => peval env (eu v)))%Q.
 Proof. exact c15_check_sound. Qed.
 Print Assumptions C15_check_sound.
+
+(* GENERAL (all sizes): the same identity on the level of the polynomial expressions the extracted model
+   reports, for every substitution of expressions for phi and u: the model's polynomial and the exact one take
+   the same value at every rational point ... *)
+Theorem C15_identity_general_poly :
+  forall (g : graph) (r : nat), wf_graph g = true -> In r (g_nodes g) ->
+  forall (ephi : pe) (eu : nat -> pe) (env : list Q),
+    (peval env (auto_gen alg_pe g r ephi eu) == peval env (exact_gen alg_pe g r ephi eu))%Q.
+Proof. exact identity_general_poly. Qed.
+Print Assumptions C15_identity_general_poly.
+
+(* ... hence a polynomial accepted by the verified checker agrees everywhere with the MODEL's polynomial
+   (motifs of any size): the checker cannot accept an output the model would not produce (as a function) *)
+Theorem C15_check_accepts_only_model :
+  forall (g : graph) (r : nat), wf_graph g = true -> In r (g_nodes g) ->
+  forall ephi eu ms, c15_checkb g r ephi eu ms = true ->
+  forall env, (peval env (monos_expr ms) == peval env (auto_gen alg_pe g r ephi eu))%Q.
+Proof. exact check_accepts_only_model. Qed.
+Print Assumptions C15_check_accepts_only_model.
 
 (* the enumeration checker means what it says *)
 Theorem C15_check_enum_spec :
